@@ -572,3 +572,189 @@ fn c05_attr_decode_fixed_kinds() {
         Err(()) => assert!(!len_ok),
     }
 }
+
+// ---------------------------------------------------------------------------------
+// C16: capability negotiation is a mirror image on both ends
+// ---------------------------------------------------------------------------------
+
+/// capability list of a fixed 4-element shape: MP(v4), MP(v6)?, ADD-PATH{(v4, m4), (v6, m6)},
+/// ExtendedMessage? - optional parts are replaced by a neutral capability so that the shape
+/// stays concrete
+struct CapFacts {
+    v6: bool,
+    m4: u8,
+    m6: u8,
+    ext_msg: bool,
+}
+
+fn cap_list() -> (Vec<Capability>, CapFacts) {
+    let f = CapFacts {
+        v6: kani::any(),
+        m4: kani::any(),
+        m6: kani::any(),
+        ext_msg: kani::any(),
+    };
+    let addpath = Capability::AddPath(fixed_vec([(Family::IPV4, f.m4), (Family::IPV6, f.m6)], 2));
+    let mp6 = if f.v6 {
+        Capability::MultiProtocol(Family::IPV6)
+    } else {
+        Capability::RouteRefresh
+    };
+    let em = if f.ext_msg {
+        Capability::ExtendedMessage
+    } else {
+        Capability::EnhancedRouteRefresh
+    };
+    (
+        fixed_vec([Capability::MultiProtocol(Family::IPV4), mp6, addpath, em], 4),
+        f,
+    )
+}
+
+//@ id=C16 tier=quick cap=1500 mem=24
+//@ fn: bgp::PeerCodec::negotiate, PeerCodec::family_state, has_family
+//@ bound: two capability lists of the shape [MP v4, MP v6?, ADD-PATH{(v4, m), (v6, m')} with ANY mode bytes (0-3 and invalid ones), ExtendedMessage?], optional parts symbolic on both sides; unwind 6
+//@ desc: a family / add-path direction / extended message is in force iff both sides advertised it (send needs local bit 2 and remote bit 1, receive the converse); negotiate(local, remote) is the mirror image of negotiate(remote, local)
+#[kani::proof]
+#[kani::unwind(6)]
+fn c16_negotiate_mirror() {
+    let (l, lf) = cap_list();
+    let (r, rf) = cap_list();
+    let a = PeerCodec::negotiate(&l, &r);
+    let b = PeerCodec::negotiate(&r, &l);
+    let a4 = a.family_state(Family::IPV4);
+    let b4 = b.family_state(Family::IPV4);
+    assert!(a4.is_some() && b4.is_some());
+    let (a4, b4) = (a4.unwrap(), b4.unwrap());
+    assert!(a4.addpath_tx == (lf.m4 & 2 != 0 && rf.m4 & 1 != 0));
+    assert!(a4.addpath_rx == (lf.m4 & 1 != 0 && rf.m4 & 2 != 0));
+    assert!(a4.addpath_tx == b4.addpath_rx && a4.addpath_rx == b4.addpath_tx);
+    let both6 = lf.v6 && rf.v6;
+    assert!(a.has_family(Family::IPV6) == both6 && b.has_family(Family::IPV6) == both6);
+    if both6 {
+        let a6 = a.family_state(Family::IPV6).unwrap();
+        let b6 = b.family_state(Family::IPV6).unwrap();
+        assert!(a6.addpath_tx == (lf.m6 & 2 != 0 && rf.m6 & 1 != 0));
+        assert!(a6.addpath_tx == b6.addpath_rx && a6.addpath_rx == b6.addpath_tx);
+    }
+    assert!(a.extended_length == (lf.ext_msg && rf.ext_msg) && b.extended_length == a.extended_length);
+    // nobody advertised 4-octet AS / extended next hop in this shape
+    assert!(a.two_byte_as && b.two_byte_as && !a.extended_nexthop);
+    kani::cover!(a4.addpath_tx && !a4.addpath_rx);
+    kani::cover!(both6 && lf.m6 > 3);
+    core::mem::forget((a, b, l, r));
+}
+
+// ---------------------------------------------------------------------------------
+// C03: parse_message on pinned UPDATE layouts (the whole parser on fully symbolic bytes is
+// beyond CBMC; here the framing bytes are concrete and one region is symbolic)
+// ---------------------------------------------------------------------------------
+
+/// UPDATE = header | withdrawn_len 0 | attr_len | [flags 0x90 code 14 (MP_REACH) ext-len VL | value]
+/// with the MP_REACH value = AFI 2 / SAFI 1 (IPv6 unicast, negotiated) followed by VL-3
+/// symbolic bytes (next-hop length byte, next hop, reserved, NLRI...).
+fn mp_reach_pinned<const VL: usize>(nhlen: u8) {
+    let mut buf = [0u8; 64];
+    let total = 19 + 2 + 2 + 4 + VL;
+    let mut i = 0;
+    while i < 16 {
+        buf[i] = 0xff;
+        i += 1;
+    }
+    buf[16] = (total >> 8) as u8;
+    buf[17] = total as u8;
+    buf[18] = 2;
+    buf[19] = 0;
+    buf[20] = 0;
+    let alen = 4 + VL;
+    buf[21] = (alen >> 8) as u8;
+    buf[22] = alen as u8;
+    buf[23] = 0x90; // optional, extended length
+    buf[24] = Attribute::MP_REACH;
+    buf[25] = (VL >> 8) as u8;
+    buf[26] = VL as u8;
+    buf[27] = 0;
+    buf[28] = 2; // AFI IPv6
+    buf[29] = 1; // SAFI unicast
+    buf[30] = nhlen; // concrete per instance: a symbolic value makes the parser allocate a
+                     // vector of symbolic capacity, which CBMC cannot finish
+    let tail: [u8; 32] = kani::any();
+    let mut j = 0;
+    while j + 4 < VL {
+        buf[31 + j] = tail[j];
+        j += 1;
+    }
+    let mut codec = PeerCodec::new();
+    codec.set_family(Family::IPV4, FamilyState::default());
+    codec.set_family(Family::IPV6, FamilyState::default());
+    let r = codec.parse_message(&buf[..total]);
+    // totality: a message or a NOTIFICATION, never a panic (all of Kani's checks are on);
+    // accepted only when the declared next hop and the reserved octet fit in the value
+    if r.is_ok() {
+        assert!(VL >= 5 + nhlen as usize);
+    }
+    kani::cover!(r.is_ok() == (VL >= 5 + nhlen as usize) || r.is_err());
+    core::mem::forget(r);
+    core::mem::forget(codec);
+}
+
+//@ id=C03 tier=quick cap=1200 mem=24
+//@ fn: bgp::PeerCodec::parse_message (UPDATE arm: attribute walk, MP_REACH_NLRI next-hop / reserved-octet / NLRI sub-parser), bgp::Attribute::decode (default arm)
+//@ bound: pinned layout: valid header, no withdrawn routes, one MP_REACH_NLRI attribute for IPv6 unicast, next-hop length 16, value ending EXACTLY after the next hop (20 bytes: the reserved octet is missing); next-hop bytes symbolic; unwind 36
+//@ desc: boundary: the parser answers with a NOTIFICATION, it does not read past the value (no panic / out-of-bounds)
+#[kani::proof]
+#[kani::unwind(36)]
+#[kani::stub(alloc::fmt::format, stub_format_bgp)]
+fn c03_update_mp_reach_ends_after_nexthop() {
+    mp_reach_pinned::<20>(16);
+}
+
+//@ id=C03 tier=off cap=3600 mem=40
+//@ fn: bgp::PeerCodec::parse_message (UPDATE arm, MP_REACH_NLRI sub-parser), PeerCodec::decode_nlri_list, Ipv6Net::decode
+//@ bound: as above with the value long enough for the reserved octet and 2 symbolic NLRI bytes (23 bytes); unwind 36
+//@ desc: the parser is total on this layout
+#[kani::proof]
+#[kani::unwind(36)]
+#[kani::stub(alloc::fmt::format, stub_format_bgp)]
+fn c03_update_mp_reach_with_nlri() {
+    mp_reach_pinned::<23>(16);
+}
+
+fn stub_format_bgp(_args: core::fmt::Arguments<'_>) -> String {
+    String::new()
+}
+
+//@ id=C03 tier=off cap=3600 mem=40
+//@ fn: bgp::PeerCodec::parse_message (UPDATE arm: withdrawn-length / attribute-length arithmetic, attribute walk, IPv4 NLRI and withdrawn-routes lists), PeerCodec::decode_nlri_list, Ipv4Net::decode
+//@ bound: ALL 27-byte UPDATE messages with a valid header: the 8 body bytes (withdrawn length, attribute length, and whatever follows) are fully symbolic - both 16-bit length fields take every value, incl. sums that exceed 65535; unwind 12
+//@ desc: the UPDATE parser is total: a message or a NOTIFICATION, never a panic / overflow / out-of-bounds (debug and release arithmetic coincide because no overflow is possible)
+#[kani::proof]
+#[kani::unwind(12)]
+#[kani::stub(alloc::fmt::format, stub_format_bgp)]
+fn c03_update_len_fields_27() {
+    let mut buf = [0xffu8; 27];
+    buf[16] = 0;
+    buf[17] = 27;
+    buf[18] = 2;
+    let body: [u8; 8] = kani::any();
+    let mut i = 0;
+    while i < 8 {
+        buf[19 + i] = body[i];
+        i += 1;
+    }
+    let mut codec = PeerCodec::new();
+    codec.set_family(Family::IPV4, FamilyState::default());
+    let r = codec.parse_message(&buf[..]);
+    let wl = u16::from_be_bytes([body[0], body[1]]) as usize;
+    if r.is_ok() {
+        // accepted => both declared lengths fit in the message
+        assert!(wl + 23 <= 27);
+        let al = u16::from_be_bytes([body[2 + wl], body[3 + wl]]) as usize;
+        assert!(wl + al + 23 <= 27);
+    }
+    kani::cover!(r.is_ok() && wl == 0);
+    kani::cover!(r.is_ok() && wl == 4);
+    kani::cover!(r.is_err());
+    core::mem::forget(r);
+    core::mem::forget(codec);
+}
